@@ -441,7 +441,7 @@ class MarkdownRenderer(BaseRenderer):
             for word in cls.make_words(fragments):
                 if word == "\n":
                     # hard line break
-                    yield current_line
+                    yield from current_line.split("\n")
                     current_line = ""
                     continue
 
@@ -456,11 +456,13 @@ class MarkdownRenderer(BaseRenderer):
                 if len(test) <= max_line_length:
                     current_line = test
                 else:
-                    yield current_line
+                    yield from current_line.split("\n")
                     current_line = word
 
         if current_line:
-            yield current_line
+            # (a word may hold line breaks of its own - an HTML tag or comment running over
+            # several lines: each of them is a line, so that it gets the prefix of its container)
+            yield from current_line.split("\n")
 
     @classmethod
     def make_words(cls, fragments: Iterable[Fragment]) -> Iterable[str]:
